@@ -16,8 +16,8 @@ SMART_OFF = {'dq': '&quot;quoted words&quot;', 'sq': "'single words'", 'apos': "
 
 
 class Ctx:
-    def __init__(self, smart=True, compat=False, notes=None):
-        self.smart, self.compat = smart, compat
+    def __init__(self, smart=True, compat=False, notes=None, nolabels=False):
+        self.smart, self.compat, self.nolabels = smart, compat, nolabels
         self.used = []                 # footnote ids in order of first use
         self.notes = dict(notes or [])
 
@@ -96,7 +96,7 @@ def block(b, c, tight=False):
         inner = sep.join(inl(l, c) for l in b[1])
         return inner if tight else '<p>' + inner + '</p>'
     if k in ('atx', 'setext'):
-        ident = '' if c.compat else ' id="%s"' % label(heading_source(b[2]))
+        ident = '' if (c.compat or c.nolabels) else ' id="%s"' % label(heading_source(b[2]))
         return '<h%d%s>' % (b[1], ident) + inl(b[2], c) + '</h%d>' % b[1]
     if k == 'hr':
         return '<hr />'
@@ -143,8 +143,8 @@ def blocks(bs, c):
     return '\n\n'.join(block(b, c) for b in bs)
 
 
-def document(doc, smart=True, compat=False):
-    c = Ctx(smart, compat, doc.get('notes'))
+def document(doc, smart=True, compat=False, nolabels=False):
+    c = Ctx(smart, compat, doc.get('notes'), nolabels)
     out = [blocks(doc['blocks'], c)]
     if c.used:
         fn = '<div class="footnotes">\n<hr />\n<ol>\n\n'
